@@ -85,7 +85,11 @@ pub fn run_case(case: &Case, st: &mut Stats) -> CaseResult {
     };
     let mut relations: BTreeSet<usize> = BTreeSet::new();
     for (i, op) in case.ops.iter().enumerate() {
-        match run.step(op) {
+        let stepped = run.step(op);
+        if let Some((what, msg)) = run.sibling_fault.take() {
+            return fail(&format!("C03/wrong-function:siblings:{}", what), format!("op #{} {:?}: {} (compression {})", i, op, msg, case.compress));
+        }
+        match stepped {
             None => st.bump("op_not_applicable"),
             Some(out) => {
                 st.bump(&format!("op.{}", out.kind));
